@@ -215,7 +215,7 @@ class _TaskGen(object):
             op['args'], op['kwds'] = copy.deepcopy(a)
         if allow_fault and rng.random() < self.k['p_fault']:
             if rng.random() < self.k['p_abort']:
-                op['fault'] = {'kind': 'abort', 'at': int(2 ** rng.uniform(0, 9.5))}
+                op['fault'] = {'kind': 'abort', 'at': int(2 ** rng.uniform(0, 12.0))}
             else:
                 op['fault'] = {'kind': 'f_raise', 'at': rng.choice([1, 1, 2, 3, 4, 5, 8, 13, 30]),
                                'exc': rng.choice(['ValueError', 'FloatingPointError',
